@@ -90,7 +90,7 @@ pub const SHAPES: &[&str] = &[
     "sorted", "reversed", "all_equal", "two_alternating", "two_halves", "three_keys", "organ_pipe",
     "saw2", "saw3", "saw5", "saw7", "saw16", "swap_ends", "swap_mid", "one_low_at_end",
     "median3_killer", "runs127", "runs128", "runs129", "lcg_shuffle", "lcg_few_keys", "sorted_dups",
-    "antiqsort", "low_pivot", "high_pivot",
+    "antiqsort", "low_pivot", "high_pivot", "shuffled_then_sorted", "sorted_then_shuffled",
 ];
 
 /// McIlroy's "killer adversary for quicksort": the comparator decides the values lazily so that
@@ -248,6 +248,21 @@ pub fn shape(name: &str, n: usize) -> Vec<u32> {
             }
             v
         }
+        "shuffled_then_sorted" | "sorted_then_shuffled" => {
+            // one half (the slightly shorter one) scrambled, the other already in place: the first
+            // partition needs no swap, the sort recurses into the scrambled half and then finds the
+            // rest "probably sorted" - an exit of the loop without a further partition
+            let mut v: Vec<u32> = (0..n32).collect();
+            if n >= 8 {
+                let h = if name == "shuffled_then_sorted" { n / 2 - 1 } else { n / 2 + 1 };
+                let (lo, hi) = if name == "shuffled_then_sorted" { (0, h) } else { (h, n) };
+                let perm = shape("lcg_shuffle", hi - lo);
+                for (k, p) in perm.iter().enumerate() {
+                    v[lo + k] = lo as u32 + p;
+                }
+            }
+            v
+        }
         "sorted_dups" => (0..n32).map(|i| i / 3).collect(),
         "antiqsort" => antiqsort_input(n),
         _ => unreachable!(),
@@ -372,8 +387,8 @@ pub fn run(tier: &str) -> ! {
     let cancel_lengths: Vec<usize> = if thorough { vec![2001, 2600, 4100, 5000, 8192, 12000] } else { vec![2001, 2600, 4100, 5200] };
     // quick tier: the uneven-first-partition shapes only at the length where they differ from a
     // plain shuffle (a half above the sequential threshold that splits again), the others below it
-    let wanted = |sh: &str, n: usize| thorough || (sh.ends_with("_pivot")) == (n == 5200);
-    let cancel_shapes = ["lcg_shuffle", "organ_pipe", "lcg_few_keys", "reversed", "low_pivot", "high_pivot"];
+    let wanted = |sh: &str, n: usize| thorough || if sh.contains("_then_") { n == 2001 } else { (sh.ends_with("_pivot")) == (n == 5200) };
+    let cancel_shapes = ["lcg_shuffle", "organ_pipe", "lcg_few_keys", "reversed", "low_pivot", "high_pivot", "shuffled_then_sorted", "sorted_then_shuffled"];
     let mut cancel_jobs: Vec<(usize, &str, u64, u64)> = Vec::new(); // (len, shape, k_lo, k_hi)
     let mut cancel_total = 0u64;
     for &n in &cancel_lengths {
@@ -482,7 +497,7 @@ pub fn run(tier: &str) -> ! {
     rep.acc.traces = rep.acc.transitions;
     rep.exhaustive = false;
     rep.bound = format!(
-        "all key sequences over 4 keys of length <= 9 and all permutations of length <= 8; {} shapes at every length 0..=2600, 4000..=4100 and {} larger lengths; every comparator-call index as cancel moment for {} shapes x lengths {:?} (quick tier: the two uneven-pivot shapes at 5200 only, the other shapes at the smaller lengths) on a one-thread pool; thread counts 1/2/4/8 on 20 inputs",
+        "all key sequences over 4 keys of length <= 9 and all permutations of length <= 8; {} shapes at every length 0..=2600, 4000..=4100 and {} larger lengths; every comparator-call index as cancel moment for {} shapes x lengths {:?} (quick tier: the two uneven-pivot shapes at 5200 only, the two half-sorted shapes at 2001 only, the other shapes at the smaller lengths) on a one-thread pool; thread counts 1/2/4/8 on 20 inputs",
         SHAPES.len(), if thorough { 4 } else { 2 }, cancel_shapes.len(), cancel_lengths
     );
     rep.rule = "small inputs: complete; shapes: every length x fixed deterministic shape family; cancel: every k in 0..=comparisons+1; non-trivial = unsorted input / shape case / cancellation observed".into();
